@@ -1,6 +1,9 @@
-(* RawKV/Sequence.v — whole operation sequences: the client (with an arbitrary layout schedule
-   attached to every call) against the same calls on one ordered map. *)
-From Verif Require Import RawKV.Model RawKV.ProofsStore RawKV.ProofsLoops RawKV.ProofsBatch RawKV.ProofsRounds RawKV.ProofsTop.
+(* RawKV/Sequence.v — whole operation sequences: the client (every call with an arbitrary schedule of
+   layouts, sub-batch outcomes and failing requests) against the same calls on one ordered map.
+   A call that fails half-way reports an error and leaves the fold of the effects of the requests that
+   were served; which requests are served is a function of the schedule alone (ProofsPlans). *)
+From Verif Require Import RawKV.Model RawKV.ProofsStore RawKV.ProofsLoops RawKV.ProofsBatch RawKV.ProofsRounds
+  RawKV.ProofsPlans RawKV.ProofsTop.
 
 Section Seq.
   Variable digest : list N -> list N -> N.
@@ -12,52 +15,95 @@ Section Seq.
   | OBatchPut (kvs : list (list N * entry)) (sched : list round)
   | OBatchGet (keys : list (list N)) (sched : list round)
   | OBatchDel (keys : list (list N)) (sched : list round)
-  | ODeleteRange (s e : list N) (Ls : list layout)
+  | ODeleteRange (s e : list N) (Ls : list (option layout))
   | OScan (s e : list N) (limit : nat) (Ls : list layout)
   | OReverseScan (s e : list N) (limit : nat) (Ls : list layout)
   | OChecksum (s e : list N) (Ls : list layout)
-  | OCas (k : list N) (prev : option (list N)) (nv : list N).
+  | OCas (atomic : bool) (k : list N) (prev : option (list N)) (nv : list N).
 
   Inductive result :=
   | RUnit
+  | RErr                       (* the call returned an error *)
   | RVal (v : option (list N))
   | RVals (vs : list (option (list N)))
   | RPairs (ps : list (list N * list N))
   | RCks (c : cks)
   | RCas (prev : option (list N)) (swapped : bool).
 
-  (* the client on the region-partitioned store; None = a loop ran out of the supplied layouts, or a
-     batch call returned an error (a dropped batch: C11_batch_put_partial says what holds then) *)
+  (* the client on the region-partitioned store; None = a loop ran out of the supplied layouts / rounds *)
   Definition run_op (st : store) (o : op) : option (result * store) :=
     match o with
     | OPut k v ttl => Some (RUnit, srv_put st k v ttl)
     | OGet k => Some (RVal (srv_get st k), st)
     | ODel k => Some (RUnit, st_del st k)
-    | OBatchPut kvs sched => match batch_put st sched kvs with Some (s, true) => Some (RUnit, s) | _ => None end
-    | OBatchGet keys sched => match batch_get st sched keys with Some (Some vs) => Some (RVals vs, st) | _ => None end
-    | OBatchDel keys sched => match bdel_rounds st sched keys with Some (s, true) => Some (RUnit, s) | _ => None end
-    | ODeleteRange s e Ls => option_map (fun s' => (RUnit, s')) (drange_loop st Ls s e)
-    | OScan s e limit Ls => option_map (fun ps => (RPairs ps, st)) (scan st Ls s e limit)
-    | OReverseScan s e limit Ls => option_map (fun ps => (RPairs ps, st)) (rscan st Ls s e limit)
+    | OBatchPut kvs sched =>
+        match batch_put st sched kvs with
+        | Some (s, true) => Some (RUnit, s) | Some (s, false) => Some (RErr, s) | None => None
+        end
+    | OBatchGet keys sched =>
+        match batch_get st sched keys with
+        | Some (Some vs) => Some (RVals vs, st) | Some None => Some (RErr, st) | None => None
+        end
+    | OBatchDel keys sched =>
+        match bdel_rounds st sched keys with
+        | Some (s, true) => Some (RUnit, s) | Some (s, false) => Some (RErr, s) | None => None
+        end
+    | ODeleteRange s e Ls =>
+        match drange_run st Ls s e with
+        | DrDone s' => Some (RUnit, s') | DrFailed s' _ => Some (RErr, s') | DrFuel => None
+        end
+    | OScan s e limit Ls =>
+        match client_scan st Ls s e limit with
+        | None => Some (RErr, st) | Some None => None | Some (Some ps) => Some (RPairs ps, st)
+        end
+    | OReverseScan s e limit Ls =>
+        match client_rscan st Ls s e limit with
+        | None => Some (RErr, st) | Some None => None | Some (Some ps) => Some (RPairs ps, st)
+        end
     | OChecksum s e Ls => option_map (fun c => (RCks c, st)) (cksum digest st Ls s e)
-    | OCas k prev nv => let '(p, sw, s') := srv_cas st k prev nv in Some (RCas p sw, s')
+    | OCas atomic k prev nv =>
+        match client_cas atomic st k prev nv with
+        | None => Some (RErr, st)
+        | Some (p, sw, s') => Some (RCas p sw, s')
+        end
     end.
 
-  (* the same call on one ordered map: no layouts, no schedules *)
+  (* the same call on one ordered map. Complete calls: no layout, no schedule. A call in which a request
+     fails: the error, and the effects of the served requests — the plan is a function of the schedule. *)
   Definition spec_op (st : store) (o : op) : result * store :=
     match o with
     | OPut k v ttl => (RUnit, st_put st k (mkEntry v ttl))
     | OGet k => (RVal (option_map e_val (st_get st k)), st)
     | ODel k => (RUnit, st_del st k)
-    | OBatchPut kvs _ => (RUnit, fold_left (fun s p => st_put s (fst p) (snd p)) kvs st)
-    | OBatchGet keys _ => (RVals (map (fun k => option_map e_val (st_get st k)) keys), st)
-    | OBatchDel keys _ => (RUnit, fold_left st_del keys st)
-    | ODeleteRange s e _ => (RUnit, filter (fun p => negb (in_range s e p)) st)
-    | OScan s e limit _ => (RPairs (map kv (firstn limit (range st s e))), st)
+    | OBatchPut kvs sched =>
+        match bput_plan sched kvs (map fst kvs) with
+        | Some (served, false) => (RErr, fold_left (fun s p => st_put s (fst p) (snd p)) served st)
+        | _ => (RUnit, fold_left (fun s p => st_put s (fst p) (snd p)) kvs st)
+        end
+    | OBatchGet keys sched =>
+        match bget_plan sched keys with
+        | Some false => (RErr, st)
+        | _ => (RVals (map (fun k => option_map e_val (st_get st k)) keys), st)
+        end
+    | OBatchDel keys sched =>
+        match bdel_plan sched keys with
+        | Some (served, false) => (RErr, fold_left st_del served st)
+        | _ => (RUnit, fold_left st_del keys st)
+        end
+    | ODeleteRange s e Ls =>
+        match drange_plan Ls s e with
+        | Some (Some c) => (RErr, filter (fun p => negb (lex_leb s (fst p) && lex_ltb (fst p) c)) st)
+        | _ => (RUnit, filter (fun p => negb (in_range s e p)) st)
+        end
+    | OScan s e limit _ =>
+        if scan_limit_ok limit then (RPairs (map kv (firstn limit (range st s e))), st) else (RErr, st)
     | OReverseScan s e limit _ =>
-        (RPairs (if is_nil s then [] else map kv (firstn limit (rev (range st e s)))), st)
+        if scan_limit_ok limit
+        then (RPairs (if is_nil s then [] else map kv (firstn limit (rev (range st e s)))), st)
+        else (RErr, st)
     | OChecksum s e _ => (RCks (cks_list digest (range st s e)), st)
-    | OCas k prev nv => let '(p, sw, s') := spec_cas st k prev nv in (RCas p sw, s')
+    | OCas atomic k prev nv =>
+        if atomic then let '(p, sw, s') := spec_cas st k prev nv in (RCas p sw, s') else (RErr, st)
     end.
 
   Fixpoint run_ops (st : store) (ops : list op) : option (list result * store) :=
@@ -84,28 +130,56 @@ Section Seq.
     - intros [= <- <-]. split; [reflexivity|apply sorted_put; exact Hs].
     - intros [= <- <-]. split; [reflexivity|exact Hs].
     - intros [= <- <-]. split; [reflexivity|apply sorted_del; exact Hs].
-    - destruct (batch_put st sched kvs) as [[s1 [|]]|] eqn:E; try discriminate. intros [= <- <-].
-      destruct (c11_batch_put_last_wins _ _ _ _ Hs E) as [H1 [H2 _]]. subst s1. split; [reflexivity|exact H1].
-    - destruct (batch_get st sched keys) as [[vs|]|] eqn:E; try discriminate. intros [= <- <-].
-      apply batch_get_aligned in E. subst vs. split; [reflexivity|exact Hs].
-    - destruct (bdel_rounds st sched keys) as [[s1 [|]]|] eqn:E; try discriminate. intros [= <- <-].
-      destruct (c11_batch_delete _ _ _ _ Hs E) as [H1 [H2 _]]. subst s1. split; [reflexivity|exact H1].
-    - destruct (drange_loop st Ls s e) as [s1|] eqn:E; [|discriminate]. intros [= <- <-].
-      destruct (c11_delete_range _ _ _ _ _ Hs E) as [H1 [H2 _]]. subst s1. split; [reflexivity|exact H1].
-    - destruct (scan st Ls s e limit) as [ps|] eqn:E; [|discriminate]. intros [= <- <-].
+    - (* batch put *)
+      destruct (batch_put st sched kvs) as [[s1 ok]|] eqn:E; [|discriminate].
+      assert (Hs1 : sorted s1) by (eapply bput_rounds_sorted; [exact Hs|exact E]).
+      pose proof E as E'. unfold batch_put in E'. rewrite bput_rounds_plan in E'.
+      destruct (bput_plan sched kvs (map fst kvs)) as [[served okp]|]; [|discriminate].
+      injection E' as <- <-. destruct okp.
+      + intros [= <- <-]. split; [|exact Hs1].
+        destruct (c11_batch_put_last_wins _ _ _ _ Hs E) as [_ [H2 _]]. rewrite H2. reflexivity.
+      + intros [= <- <-]. split; [reflexivity|exact Hs1].
+    - (* batch get *)
+      unfold batch_get. pose proof (bget_rounds_plan st sched keys) as P.
+      destruct (bget_rounds st sched keys) as [[ps ok]|] eqn:E; [|discriminate]. cbn in P. rewrite <- P.
+      destruct ok.
+      + intros [= <- <-]. split; [|exact Hs].
+        destruct (bget_rounds_pairs _ _ _ _ E) as [I1 I2]. rewrite (assemble_any st keys ps I1 I2). reflexivity.
+      + intros [= <- <-]. split; [reflexivity|exact Hs].
+    - (* batch delete *)
+      destruct (bdel_rounds st sched keys) as [[s1 ok]|] eqn:E; [|discriminate].
+      assert (Hs1 : sorted s1) by (eapply bdel_rounds_sorted; [exact Hs|exact E]).
+      pose proof E as E'. rewrite bdel_rounds_plan in E'.
+      destruct (bdel_plan sched keys) as [[served okp]|]; [|discriminate].
+      injection E' as <- <-. destruct okp.
+      + intros [= <- <-]. split; [|exact Hs1].
+        destruct (c11_batch_delete _ _ _ _ Hs E) as [_ [H2 _]]. rewrite H2. reflexivity.
+      + intros [= <- <-]. split; [reflexivity|exact Hs1].
+    - (* delete range *)
+      pose proof (drange_run_plan e Ls st s) as P.
+      destruct (drange_run st Ls s e) as [s1|s1 c|] eqn:E; [| |discriminate].
+      + destruct (drange_plan Ls s e) as [[c'|]|]; try contradiction.
+        intros [= <- <-]. apply drange_run_done in E. subst s1. split; [reflexivity|apply sorted_filter; exact Hs].
+      + destruct (drange_plan Ls s e) as [[c'|]|]; try contradiction. subst c'.
+        intros [= <- <-]. apply drange_run_failed in E. destruct E as [-> _].
+        split; [reflexivity|apply sorted_filter; exact Hs].
+    - unfold client_scan. destruct (scan_limit_ok limit); [|intros [= <- <-]; split; [reflexivity|exact Hs]].
+      destruct (scan st Ls s e limit) as [ps|] eqn:E; [|discriminate]. intros [= <- <-].
       apply (scan_correct _ _ _ _ _ _ Hs) in E. subst ps. split; [reflexivity|exact Hs].
-    - destruct (rscan st Ls s e limit) as [ps|] eqn:E; [|discriminate]. intros [= <- <-].
+    - unfold client_rscan. destruct (scan_limit_ok limit); [|intros [= <- <-]; split; [reflexivity|exact Hs]].
+      destruct (rscan st Ls s e limit) as [ps|] eqn:E; [|discriminate]. intros [= <- <-].
       split; [|exact Hs]. destruct (is_nil s) eqn:En.
       + apply is_nil_true in En. subst s. rewrite rscan_from_end_empty in E. injection E as <-. reflexivity.
       + apply is_nil_false in En. apply (rscan_correct _ _ _ _ _ _ Hs En) in E. subst ps. reflexivity.
     - destruct (cksum digest st Ls s e) as [c|] eqn:E; [|discriminate]. intros [= <- <-].
       apply (cksum_correct digest _ _ _ _ _ Hs) in E. subst c. split; [reflexivity|exact Hs].
-    - rewrite cas_correct. destruct (spec_cas st k prev nv) as [[p sw] s1] eqn:E. intros [= <- <-].
+    - unfold client_cas. destruct atomic; [|intros [= <- <-]; split; [reflexivity|exact Hs]].
+      rewrite cas_correct. destruct (spec_cas st k prev nv) as [[p sw] s1] eqn:E. intros [= <- <-].
       split; [reflexivity|].
       unfold spec_cas in E. destruct (opt_bytes_eqb (srv_get st k) prev); injection E as _ _ <-; [apply sorted_put; exact Hs|exact Hs].
   Qed.
 
-  (* every sequence of calls, every layout schedule: same results, same final map *)
+  (* every sequence of calls, every schedule incl. failing requests: same results, same final map *)
   Lemma run_ops_spec : forall ops st rs st',
     sorted st -> run_ops st ops = Some (rs, st') -> (rs, st') = spec_ops st ops /\ sorted st'.
   Proof.
